@@ -1,10 +1,66 @@
 import MazeVerif.DriverOps.Util
+import MazeVerif.Model.Gen
+import MazeVerif.Model.WilsonProb
 namespace MZ.Drv.C19
-open Lean MZ.Drv
+open Lean MZ.Drv MZ.WStep MZ.WProb
+
+/-- the ranges (`arity`) of the draws consumed by a run of the step machine, in order -/
+def arities (rows cols : Nat) : WS → List Nat → Nat → List Nat
+  | _, _, 0 => []
+  | s, draws, fuel + 1 =>
+    if finished rows cols s then []
+    else match draws with
+      | [] => []
+      | k :: rest => arity rows cols s :: (if k < arity rows cols s then arities rows cols (next rows cols s k) rest fuel else [])
+
+def jRat (q : Rat) : Json := Json.arr #[jInt q.num, jNat q.den]
 
 /-- driver ops of property C19 (`"op": "C19.<name>"`) -/
-def handle (op : String) (_j : Json) : R Json := do
+def handle (op : String) (j : Json) : R Json := do
   match op with
+  | "C19.run" =>
+    -- replay a tapped `gen_wilson` run on the step machine AND on the nested-loop model of C01
+    let rows ← getNat j "rows"; let cols ← getNat j "cols"; let draws ← getNatList j "draws"
+    let fuel := draws.length + 1
+    let nested := (genWilsonTop rows cols draws (64 * (draws.length + rows * cols) + 64)).map fun s => s.E
+    let ar := match draws with
+      | a :: b :: rest => arities rows cols { vis := 1 <<< (a * cols + b), edges := 0, path := [] } rest fuel
+      | _ => []
+    match run rows cols draws fuel with
+    | some (s, rest) =>
+      pure <| obj [("ok", true), ("mask", jNat s.edges), ("edges", jEdges (edgesOfMask rows cols s.edges)),
+                   ("leftover", jNat rest.length), ("arities", jNats ar),
+                   ("start_ranges", jNats [max (rows - 1) 1, max (cols - 1) 1]),
+                   ("nested_ok", nested.isSome), ("nested_edges", jEdges (nested.getD [])),
+                   ("spanning", isSpanningMask rows cols s.edges)]
+    | none => pure <| obj [("ok", false), ("arities", jNats ar), ("nested_ok", nested.isSome)]
+  | "C19.law" =>
+    -- exact law of the machine after n draws: finished masks with probabilities, unfinished mass, the spanning trees
+    let rows ← getNat j "rows"; let cols ← getNat j "cols"; let n ← getNat j "n"
+    let d := law rows cols n
+    let span := allSpanningMasks rows cols
+    let tt := span.map fun T => (T, massFin (wilson rows cols) (edgesAre T) d)
+    let other := massFin (wilson rows cols) (fun s => !span.contains s.edges) d
+    pure <| obj [("trees", jList (fun (x : Nat × Rat) => Json.arr #[jNat x.1, jRat x.2]) tt),
+                 ("unfinished", jRat (massUnfin (wilson rows cols) d)), ("other", jRat other),
+                 ("states", jNat d.length), ("n_trees", jNat span.length)]
+  | "C19.next" =>
+    -- one transition of the step machine from an explicitly given state (exhaustive state-space correspondence)
+    let rows ← getNat j "rows"; let cols ← getNat j "cols"
+    let st : WS := { vis := ← getNat j "vis", edges := ← getNat j "edges", path := ← getNatList j "path" }
+    let k ← getNat j "k"
+    let ar := arity rows cols st
+    let s' := next rows cols st k
+    pure <| obj [("arity", jNat ar), ("finished_before", finished rows cols st), ("in_range", decide (k < ar)),
+                 ("vis", jNat s'.vis), ("edges", jNat s'.edges), ("path", jNats s'.path),
+                 ("finished", finished rows cols s'), ("next_arity", jNat (arity rows cols s'))]
+  | "C19.starts" =>
+    let rows ← getNat j "rows"; let cols ← getNat j "cols"
+    pure <| obj [("starts", jList (fun (s : WS) => obj [("vis", jNat s.vis), ("edges", jNat s.edges), ("path", jNats s.path)]) (starts rows cols)),
+                 ("ranges", jNats [max (rows - 1) 1, max (cols - 1) 1])]
+  | "C19.spanning" =>
+    let rows ← getNat j "rows"; let cols ← getNat j "cols"; let masks ← getNatList j "masks"
+    pure <| obj [("is_spanning", Json.arr (masks.map fun m => Json.bool (isSpanningMask rows cols m)).toArray)]
   | _ => throw s!"unknown op {op}"
 
 end MZ.Drv.C19
